@@ -456,6 +456,7 @@ impl Property for C03 {
             "network_level_conv_filters_ge_2",
             "network_level_feedback",
             "network_level_stateful",
+            "network_level_step_via_learn",
         ]
     }
 
